@@ -113,7 +113,7 @@ def run(ctx):
     from pvm.checks.c01 import is_spectral, spectral_defined
     S.COPY_INPUTS[0] = False
     subs = S.all_subjects()
-    cap = 6000 if ctx.thorough else 480
+    cap = 9000 if ctx.thorough else 1200
 
     def call(q, o):
         with warnings.catch_warnings():
